@@ -1,4 +1,126 @@
-(* C09 - placeholder while the pipeline is brought up *)
-From IV Require Import Base.Word Model.FbAdapter Check.C09Check.
-Theorem C09_placeholder : True. Proof. exact I. Qed.
-Print Assumptions C09_placeholder.
+(* C09 - Feedback decoding attributes each acknowledgement to the right sent packet.
+   Statements only; proofs are in Proofs/FbAdapterProofs.v (cc adapter) and
+   Proofs/RtpfbProofs.v (rtpfb history).
+   Vocabulary (Spec/FbSpec.v): [symbols cs] = the chunks expanded to one status
+   symbol per offset; [arrival_at ref syms ds k] = reference time + the deltas of
+   the delta-carrying symbols at offsets <= k; [decode_at e ...] = what offset k
+   reports given the send-history entry e of sequence number base + k;
+   [send_log ops] = everything OnSent recorded, most recent first. *)
+From IV Require Import Base.Word Model.FbAdapter Spec.FbSpec Proofs.FbAdapterProofs.
+
+(* Position semantics (TWCC, cc adapter, after the fix commits).  For every
+   history content h and every feedback that is not rejected: one entry per
+   status symbol, and the entry at offset k is a function of the feedback and of
+   the history entry of sequence number base + k ALONE - its status is symbol k,
+   its arrival is ref + sum of the deltas of the received symbols at offsets <= k,
+   whether or not any neighbouring packet is still in the history. *)
+Theorem C09_position_semantics : forall h base ref24 cs ds acks,
+  0 <= base < 65536 ->
+  on_twcc h base ref24 cs ds = Some acks ->
+  length acks = length (symbols cs) /\
+  forall k, (k < length (symbols cs))%nat ->
+    nth k acks zero_ack = decode_at (hget h 0 ((base + Z.of_nat k) mod 65536)) ref24 (symbols cs) ds k.
+Proof. exact twcc_position. Qed.
+Print Assumptions C09_position_semantics.
+
+Example C09_position_semantics_nonvacuous :
+  on_twcc [(12, 0, 1021, 2, 0, 0); (10, 0, 1020, 1, 0, 0)] 10 1 [SV [1; 1; 1; 0; 0; 0; 0]] [1000; 5000; 250]
+  = Some [(10, 0, 1020, 1, 65000000, 0); zero_ack; (12, 0, 1021, 2, 70250000, 0);
+          zero_ack; zero_ack; zero_ack; zero_ack].
+Proof. vm_compute. reflexivity. Qed.
+Print Assumptions C09_position_semantics_nonvacuous.
+
+(* A feedback is rejected exactly when it carries fewer deltas than delta-carrying
+   symbols (never because of the history content). *)
+Theorem C09_rejected_iff_too_few_deltas : forall h base ref24 cs ds,
+  0 <= base < 65536 ->
+  (on_twcc h base ref24 cs ds = None <-> (length ds < ndeltas (symbols cs))%nat).
+Proof. exact twcc_rejected_iff. Qed.
+Print Assumptions C09_rejected_iff_too_few_deltas.
+
+(* The bounded history only returns what was sent: for every operation list,
+   an entry found in the adapter's history is the MOST RECENT record of that
+   (ssrc, sequence number) in the unbounded send log. *)
+Theorem C09_history_sound : forall reftime ops,
+  hist_sound (final reftime [] ops) (send_log ops []).
+Proof. intros. apply final_sound. intros ? ? ? H; discriminate H. Qed.
+Print Assumptions C09_history_sound.
+
+Theorem C09_history_bounded : forall reftime ops,
+  Z.of_nat (length (final reftime [] ops)) <= 250.
+Proof. intros. apply (final_length reftime ops []). unfold CAP. simpl. lia. Qed.
+Print Assumptions C09_history_bounded.
+
+(* Every TWCC acknowledgement that is not the zero value names a sent packet
+   (the most recent send with transport sequence number base + k) and carries
+   its recorded size and departure time; k is its offset in the feedback. *)
+Theorem C09_names_sent_packets_twcc : forall h log base ref24 cs ds acks k,
+  hist_sound h log ->
+  0 <= base < 65536 ->
+  on_twcc h base ref24 cs ds = Some acks ->
+  (k < length acks)%nat ->
+  nth k acks zero_ack = zero_ack \/
+  exists e, hget log 0 ((base + Z.of_nat k) mod 65536) = Some e /\
+            ack_seq e = (base + Z.of_nat k) mod 65536 /\ ack_ssrc e = 0 /\
+            ack_seq (nth k acks zero_ack) = ack_seq e /\
+            ack_ssrc (nth k acks zero_ack) = ack_ssrc e /\
+            ack_size (nth k acks zero_ack) = ack_size e /\
+            ack_dep (nth k acks zero_ack) = ack_dep e /\
+            ack_ecn (nth k acks zero_ack) = ack_ecn e.
+Proof. exact twcc_names_sent. Qed.
+Print Assumptions C09_names_sent_packets_twcc.
+
+(* Range, PARTIAL: every acknowledgement sits at an offset below the number of
+   status symbols the chunks hold, i.e. in [base, base + |symbols|).  The
+   property asks for [base, base + PacketStatusCount); symbols of the last chunk
+   beyond the count are reported (known finding F13, pinned by the package's
+   tests) - see C09_beyond_count_refuted.  When the chunks hold exactly
+   PacketStatusCount symbols the two ranges coincide. *)
+Theorem C09_range_partial : forall h base ref24 cs ds acks,
+  0 <= base < 65536 ->
+  on_twcc h base ref24 cs ds = Some acks ->
+  length acks = length (symbols cs).
+Proof. intros h base ref24 cs ds acks Hb H. exact (proj1 (twcc_position _ _ _ _ _ _ Hb H)). Qed.
+Print Assumptions C09_range_partial.
+
+Theorem C09_beyond_count_refuted :
+  (* PacketStatusCount 2, a two-bit vector of 7 symbols, packets 10..16 sent:
+     packet 14 (offset 4 >= 2) is reported, as lost *)
+  exists acks, on_twcc h7 10 1 [SV [1; 1; 0; 0; 0; 0; 0]] [1000; 5000] = Some acks /\
+               nth 4 acks zero_ack = (14, 0, 1000, 14, 0, 0).
+Proof. exact beyond_count_witness. Qed.
+Print Assumptions C09_beyond_count_refuted.
+
+Theorem C09_run_beyond_count_rejected_refuted :
+  (* PacketStatusCount 3, run length 5 of "received": the parser creates 3
+     deltas, the adapter rejects the whole feedback *)
+  on_twcc h7 10 1 [RL 1 5] [1000; 1000; 1000] = None.
+Proof. exact run_beyond_count_witness. Qed.
+Print Assumptions C09_run_beyond_count_rejected_refuted.
+
+Theorem C09_zero_ack_for_unknown_refuted :
+  (* only packet 10 was sent; offsets 1..6 yield zero-valued acknowledgements (F12) *)
+  on_twcc [(10, 0, 1020, 1, 0, 0)] 10 1 [SV [1; 1; 0; 0; 0; 0; 0]] [1000; 5000]
+  = Some [(10, 0, 1020, 1, 65000000, 0); zero_ack; zero_ack; zero_ack; zero_ack; zero_ack; zero_ack].
+Proof. exact zero_ack_for_unknown_witness. Qed.
+Print Assumptions C09_zero_ack_for_unknown_refuted.
+
+(* RFC 8888 (cc adapter): the acknowledgements are exactly, block by block and
+   metric block by metric block, the history entries of (ssrc, begin + n) with
+   the status, arrival = reference - ato/1024 s and ECN of metric block n;
+   packets that are not in the history are skipped without affecting any other. *)
+Theorem C09_rfc8888 : forall h rt bs,
+  Forall (fun b : rblock => 0 <= snd (fst b) < 65536) bs ->
+  on_ccfb h rt bs =
+  flat_map (fun b : rblock => let '(ssrc, begin, mbs) := b in ccfb_spec h rt ssrc begin 0 mbs) bs.
+Proof. exact ccfb_position. Qed.
+Print Assumptions C09_rfc8888.
+
+Theorem C09_names_sent_packets_rfc8888 : forall h log rt bs a,
+  hist_sound h log ->
+  Forall (fun b : rblock => 0 <= snd (fst b) < 65536) bs ->
+  In a (on_ccfb h rt bs) ->
+  exists e, hget log (ack_ssrc a) (ack_seq a) = Some e /\
+            ack_size a = ack_size e /\ ack_dep a = ack_dep e.
+Proof. exact ccfb_names_sent. Qed.
+Print Assumptions C09_names_sent_packets_rfc8888.
